@@ -5,6 +5,7 @@ Exit 0: the property held on everything explored; 1: violation (a VIOLATION line
 2: infrastructure failure / timeout (never a violation)."""
 import argparse
 import importlib
+import subprocess
 import os
 import sys
 import time
@@ -34,7 +35,20 @@ def main():
             return mod.replay(a.replay)
         st = core.lean_prepare(pid, need_driver=getattr(mod, "NEED_DRIVER", True),
                                leanchecker=(a.tier == "thorough"))
-        res = mod.run(st, a.tier, seed)
+        try:
+            res = mod.run(st, a.tier, seed)
+        except (KeyboardInterrupt, RuntimeError, OSError, MemoryError, subprocess.TimeoutExpired, ImportError):
+            raise                    # the harness' own sanity checks, resources, time-outs: infrastructure
+        except BaseException as e:   # noqa
+            # the harness could not evaluate a case: on the unchanged tree this does not happen (every seed is run), so the
+            # implementation has answered in a way the comparison code has no place for (an unexpected key, type, exit, shape).
+            # The correspondence is then not established: reported as a broken obligation, not as exit 2.
+            tb = traceback.format_exc()
+            sys.stderr.write(tb)
+            res = core.Result(pid)
+            res.rule = "evaluation aborted"
+            res.corr_breaks.append({"name": "harness-evaluation (the implementation's answer could not be compared)", "input": None,
+                                    "model": "-", "impl": "%s: %s" % (type(e).__name__, str(e)[:300]), "traceback": tb[-3000:]})
         return core.finish(pid, a.tier, seed, t0, st, res,
                            level=getattr(mod, "LEVEL", "proof"), level_note=getattr(mod, "LEVEL_NOTE", ""))
     except Exception:
